@@ -22,6 +22,9 @@ def main():
     if selftest.main(quiet=True) != 0:
         print('ENGINE-ERROR self-test failed')
         sys.exit(3)
+    if a.only and not os.environ.get('VERIF_EVIDENCE_DIR'):
+        os.environ['VERIF_EVIDENCE_DIR'] = '/tmp/verif-partial-evidence'  # a filtered run must not replace the evidence of the full check
+        runner.EVIDENCE_DIR = os.environ['VERIF_EVIDENCE_DIR']
     seed = int(os.environ.get('VERIF_SEED', '0') or 0)
     sys.exit(runner.run_property(a.prop, a.tier, seed=seed, only=a.only, jobs=a.jobs))
 
